@@ -1204,6 +1204,8 @@ fn svc_default(k: u8, rng: &mut Rng) -> ActorDecl {
     d.entry = Entry::Spawn;
     if rng.chance(1, 5) {
         d.started = vec![SStep::Yield];
+    } else if rng.chance(1, 5) {
+        d.started = vec![SStep::Sleep(*rng.pick(&[1u64, 2]))];
     }
     // a service that takes its time in stopped(): until that hook has returned it is still the running, registered
     // instance for every registry operation
@@ -1797,7 +1799,18 @@ pub fn registry(rng: &mut Rng) -> Program {
             }
             let k = g.rng.range(1, ntypes as u64) as u8;
             let ops = &mut g.prog.clients[c];
-            match g.rng.below(14) {
+            match g.rng.below(15) {
+                14 => {
+                    // a lookup that gives up (timeout / select!) while the service it spawned is still starting, then a
+                    // patient one: both see the same instance
+                    let polls = g.rng.range(0, 3) as u8;
+                    ops.push(Op::FromRegistryCancel { k, polls }); // nslots (the address, if it made it in time)
+                    ops.push(Op::FromRegistry { k }); // nslots + 1
+                    ops.push(Op::Call { slot: nslots + 1, script: vec![], cancel: None });
+                    held.push((nslots + 1, k));
+                    nslots += 2;
+                    used += 2;
+                }
                 12 => {
                     // a fresh instance is offered to the registry while the client keeps a clone: accepted or refused,
                     // the instance lives on as long as the clone does, and answers through it
